@@ -16,7 +16,12 @@ Implementation-level oracle (needs no model): `d` lines — the same program run
 `Runtime::new(arena, Some(frame))` and with `Runtime::new(arena, None)` in the debug build (freed
 memory is poisoned); outputs and ending have to be equal.  Streams: corpus (the D-02 witnesses as `d`
 lines, corpus/C02/src/*.ns as trace programs), the enumerated product value source x store path x
-reclamation event x observation, random programs."""
+reclamation event x observation, the enumerated product temporary receiver x method case x holding
+context (method calls on computed temporaries -- popped elements, call results, concatenations,
+chains -- whose result is held while a string of the same pool class is stored), the enumerated product
+command builder call x argument source x reclaimed region, random programs
+(the same temporary-receiver shapes are weighted options of the random generator; their distribution
+is reported as `random_temp_shapes`)."""
 import glob
 import os
 import re
@@ -29,6 +34,9 @@ PROP = "NaijaVerif.Props.C02"
 CORPUS = os.path.join(VERIF, "corpus", "C02")
 STAT = re.compile(r"STAT (\d+) end=(\w+) resets=(\d+) frees=(\d+) pallocs=(\d+) reuse=(\d+) rcopy=(\d+)")
 FAIL = re.compile(r"ORACLE-FAIL (\d+) (.*)")
+GEN_STAT = re.compile(r"GEN-STAT (.*)")
+# tag keys of the two enumerated products (first line of a product program)
+DIM_KEYS = ("src", "store", "ev", "obs", "recv", "meth", "hold", "storer", "len", "cmd", "arg", "region", "cmdobs")
 
 # The witnesses of D-02 (fixed by b552049): each differed between the two runs on the pinned tree.
 WITNESSES = [
@@ -107,8 +115,22 @@ def product_lines(ck):
     return nvh_lines(ck, ["product"], "product")
 
 
-def random_lines(ck, n, shift=0):
-    return nvh_lines(ck, ["gen", "--seed", ck.seed + shift, "--n", n], "gen")
+def random_lines(ck, n, shift=0, record=True):
+    """`d` lines of n random programs; the generator's own count of the temporary-receiver shapes it
+    emitted (stderr, `GEN-STAT k=v ...`) is accumulated into the evidence."""
+    p = sh([ck.nvh(), FAMILY, "gen", "--seed", str(ck.seed + shift), "--n", str(n)], timeout=1800)
+    if p.returncode != 0:
+        raise MachineryError(f"nvh mem gen failed: {p.stderr.decode(errors='replace')[-500:]}")
+    if record:
+        shapes = ck.extra_cov.setdefault("random_temp_shapes", {})
+        for l in p.stderr.decode(errors="replace").splitlines():
+            m = GEN_STAT.match(l)
+            if m:
+                for kv in m.group(1).split():
+                    k, _, v = kv.partition("=")
+                    if v.isdigit():
+                        shapes[k] = shapes.get(k, 0) + int(v)
+    return p.stdout.decode().splitlines()
 
 
 def trace_lines(ck, n, shift=0, corpus=False):
@@ -141,9 +163,10 @@ def stats_of(res):
 
 
 def tag_of(src):
-    """The `# src=.. store=.. ev=.. obs=..` first line of a product program as a dict."""
+    """The `# src=.. store=.. ev=.. obs=..` / `# recv=.. meth=.. hold=.. storer=.. len=..` /
+    `# cmd=.. arg=.. region=.. cmdobs=..` first line of a product program as a dict."""
     first = src.split("\n", 1)[0]
-    if not first.startswith("# src="):
+    if not first.startswith(("# src=", "# recv=", "# cmd=")):
         return None
     return dict(kv.split("=", 1) for kv in first[2:].split() if "=" in kv)
 
@@ -203,7 +226,15 @@ def classify(ck, label, reqs, res):
         if dims is not None:
             t = tag_of(src_of(r))
             if t:
-                for k in ("src", "store", "ev", "obs"):
+                if "recv" in t:
+                    ck.count("product_temp_receiver_programs")
+                    if nt:
+                        ck.count("product_temp_receiver_nontrivial")
+                if "cmd" in t:
+                    ck.count("product_command_builder_programs")
+                    if nt:
+                        ck.count("product_command_builder_nontrivial")
+                for k in DIM_KEYS:
                     if k in t:
                         d = dims.setdefault(k, {})
                         d[t[k]] = d.get(t[k], 0) + 1
@@ -291,7 +322,7 @@ def run(ck: Check):
         stream(ck, "corpus", corpus_lines(), profile="release")
         stream(ck, "product", prod, profile="release")
         for shift in range(0, 8000, 1000):
-            stream(ck, "random", random_lines(ck, 10000, shift), profile="release")
+            stream(ck, "random", random_lines(ck, 10000, shift, record=False), profile="release")
         if os.path.exists(os.path.join(LEAN, "NaijaVerif", "Props", "C02.lean")):
             ck.leanchecker([PROP])
 
@@ -340,7 +371,7 @@ def search(ck):
     found = [(f["request"], f["what"]) for f in ck.oracle_fails if f["request"].startswith("d ")]
     if not found:
         budget = 20000 if ck.tier == "quick" else 100000
-        pools = [corpus_lines(), product_lines(ck)] + [random_lines(ck, budget, s) for s in (101, 202, 303)]
+        pools = [corpus_lines(), product_lines(ck)] + [random_lines(ck, budget, s, record=False) for s in (101, 202, 303)]
         for reqs in pools:
             reqs = [r for r in reqs if r.startswith("d ")]
             for part in chunks(reqs, 10000):
@@ -358,7 +389,9 @@ def search(ck):
                             no_input_found=True)
         return
     # minimise a few of the smallest failing programs: different programs may show different defects
-    found.sort(key=lambda f: (not genuine(f[1]), len(f[0])))
+    # programs whose two runs both end normally and print different things first (both outputs are in the
+    # report), then aborts / panics of the reclaiming run
+    found.sort(key=lambda f: (not genuine(f[1]), outcome_of(f[1]) != "diff", len(f[0])))
     reported = set()
     for req, what in found[:40]:
         if len(reported) >= 3:
@@ -463,13 +496,49 @@ def render(forest):
 COUNTER_STEP = re.compile(r"^(\w+) get \1 add 1$")
 
 
+def list_reductions(line):
+    """The line with one element of one `[a, b, ...]` list (two or more elements) removed, for every list
+    and element; quotes are respected. Lets the shrinker thin out the stock arrays of generated programs."""
+    out = []
+    stack, pairs, quote = [], [], None
+    for i, ch in enumerate(line):
+        if quote:
+            if ch == quote and line[i - 1] != "\\":
+                quote = None
+        elif ch in "\"'":
+            quote = ch
+        elif ch in "[(":
+            stack.append((ch, i, [i]))
+        elif ch in "])" and stack:
+            op, start, cuts = stack.pop()
+            if op == "[" and ch == "]" and len(cuts) > 1 and (start == 0 or not (line[start - 1].isalnum() or line[start - 1] in "_)]")):
+                pairs.append((cuts, i))
+        elif ch == "," and stack:
+            stack[-1][2].append(i)
+    for cuts, end in pairs:
+        bounds = cuts + [end]
+        for k in range(len(cuts)):
+            lo, hi = bounds[k], bounds[k + 1]
+            if k == 0:
+                # first element: drop it and the comma + blank after it
+                cand = line[:lo + 1] + line[hi + 1:].lstrip()
+            else:
+                cand = line[:lo] + line[hi:]
+            out.append(cand)
+    return out
+
+
 def variants(forest):
     """Every program obtained by one reduction step: delete a node, delete an else branch, replace a
-    block by its body (loop / if / block wrappers), replace an if by its else body."""
+    block by its body (loop / if / block wrappers), replace an if by its else body, delete one element
+    of an array literal."""
     out = []
 
     def walk(nodes, rebuild):
         for i, n in enumerate(nodes):
+            if n.kids is None and "[" in n.line and not n.line.startswith("#"):
+                for cand in list_reductions(n.line):
+                    out.append(rebuild(nodes[:i] + [Node(cand)] + nodes[i + 1:]))
             # a loop keeps its counter increment: without it the candidate does not terminate
             if not (n.kids is None and COUNTER_STEP.match(n.line)):
                 out.append(rebuild(nodes[:i] + nodes[i + 1:]))
@@ -567,6 +636,11 @@ def structural_tags(src):
             tags.add("index-assign")
         if ".pop()" in line:
             tags.add("pop")
+        # a method called on a computed temporary: a popped element / a call result / a parenthesis / a chain
+        if re.search(rf"\.pop\(\)(\[[^\]]*\])*\.{IDENT}\(", line):
+            tags.add("method-on-popped")
+        if re.search(rf"\)\.{IDENT}\(", re.sub(r"\.pop\(\)", "", line)) and not line.startswith("do "):
+            tags.add("method-on-temporary")
         if "command(" in line:
             tags.add("host-value")
         if re.search(rf"\{{{IDENT}\}}", line):
